@@ -2,83 +2,280 @@
 (* Independent Data Line packets, format A (EN 300 708 section 6.5), as received by
    vbi_idl_demux_feed() / idl_a_demux_feed() in src/idl_demux.c.
 
-   The sender transmits user data for the selected (channel, service packet address) in packets
-   with a continuity indicator that counts modulo 256 - carried explicitly or hidden in the CRC -
-   optionally a data length byte, and dummy bytes after runs of 0x00/0xFF.  The channel may drop a
-   packet, damage it (CRC failure), hit a Hamming protected byte twice, or carry packets of other
-   addresses, other channels and ordinary Teletext packets in between.
+   SENDER.  A service transmits user data for (channel, service packet address) in packets
+       byte 0 channel^   1 designation^ (15)   2 format type FT^   3 IAL^ (address length, DEPENDENT bit)
+       4.. address nibbles^   [RI]  [CI]  [DL]   user data with dummy bytes   CRC (2 bytes)
+   where ^ marks a Hamming 8/4 protected UNIT.  The continuity indicator counts the packets of the service modulo 256, it is
+   carried explicitly or hidden in the CRC.  WireOf/Payload below say exactly which wire bytes are dummy bytes
+   (EN 300 708 6.5.7.1: a dummy byte follows 8 consecutive bytes 0x00 or 8 consecutive bytes 0xFF).
+   Other services send on neighbouring addresses / channels, ordinary Teletext packets are mixed in.
 
-   Reference (C15): exactly the payload of every intact packet of the selected address is delivered,
-   in order; the first delivery after a packet of that address was lost or damaged carries
-   DATA_LOST, no other delivery does; the DEPENDENT bit is passed through.                      *)
-EXTENDS Naturals, Integers, Sequences, TLC
+   CHANNEL (fault alphabet, one fault per packet at UNIT granularity):
+       none | drop | crc (a bit of the CRC protected part flipped so that the check fails)
+       [u, i, "err1"]  one bit of the Hamming protected unit u is inverted  (must be corrected = no fault)
+       [u, i, "err2"]  two bits of the unit are inverted                     (uncorrectable)
+   for u in chan, desig, ft, ial, spa i (every address nibble), on packets of the selected service AND of the others.
 
-CONSTANTS Lens,        \* payload lengths
-          Formats,     \* subset of {"ci", "ci+dl", "impl", "impl+dl"}
+   REFERENCE RECEIVER (Rx): reads the units in order; a unit hit twice is unreadable and the packet is ignored; a packet
+   is taken iff channel, designation, format A, and ALL address nibbles are readable and equal the selected ones.
+   C15: exactly the user bytes of every intact packet of the selected service are delivered, in order, nothing from other
+   addresses; the first delivery after a packet of the service was lost or damaged carries DATA_LOST, no other delivery
+   does; the DEPENDENT bit is passed through.                                                                       *)
+EXTENDS Naturals, Integers, Sequences, FiniteSets, TLC
+
+CONSTANTS Listen,      \* listener configurations [chan |-> 0..15, addr |-> service packet address]
+          Formats,     \* format types: even numbers 0..14, bit 1 = RI byte, bit 2 = explicit CI byte, bit 3 = DL byte
           SpaLens,     \* service packet address lengths 0..6
-          StartCi,     \* initial values of the sender's continuity counter
-          Bursts,      \* lengths of loss bursts (runs of consecutive lost packets of the selected address), each < 256
-          MaxPk
+          Pays,        \* payload patterns: sequences of segments <<v, n>>: n bytes of value v (0 or 255), v = -1: n ordinary bytes
+          StartCi,     \* initial values of the service's continuity counter ("cont")
+          PayCi,       \* ... in "pay" behaviours (0 and 255 are values a run of user bytes could be mistaken to continue)
+          ForeignLens, \* address lengths of the neighbour services whose units are damaged
+          Bursts,      \* lengths of loss bursts (runs of consecutive lost packets of the selected service), each < 256
+          Modes,       \* packet alphabets used: subset of {"cont", "unit", "pay"}
+          MaxPk        \* length of "cont" behaviours
 
-VARIABLES sci,      \* sender: continuity indicator of the next packet
+VARIABLES lst,      \* the listener configuration of this behaviour
+          mode,
+          sci,      \* sender: continuity indicator of the next packet of the selected service
           rci,      \* reference receiver: expected continuity indicator, -1 unknown
           lost,     \* reference receiver: loss seen since the last delivery
-          out,      \* deliveries of the last step: sequence of [n, lost, dep]
-          gap,      \* ghost: what was lost since the last delivery: [n |-> packets of the selected address that never arrived
+          out,      \* deliveries of the last step: sequence of [lost, dep] (DATA_LOST, DEPENDENT), the bytes are Delivered(packet)
+          gap,      \* ghost: what was lost since the last delivery: [n |-> packets of the selected service that were not delivered
                     \*        (modulo 256: the continuity indicator has 8 bits, a run of exactly 256 is undetectable),
                     \*        crc |-> a packet arrived with a CRC failure]
           seen,     \* ghost: the receiver has synchronised once (delivered or saw a CRC failure)
           npk, lastAct
-vars == <<sci, rci, lost, out, gap, seen, npk, lastAct>>
+vars == <<lst, mode, sci, rci, lost, out, gap, seen, npk, lastAct>>
 
 Inc(c) == (c + 1) % 256
 NoGap == [n |-> 0, crc |-> FALSE]
 Miss(k) == [gap EXCEPT !.n = (@ + k) % 256]
 IsGap == gap.n # 0 \/ gap.crc
 
-Init == /\ sci \in StartCi /\ rci = -1 /\ lost = FALSE /\ out = <<>> /\ gap = NoGap /\ seen = FALSE
+-----------------------------------------------------------------------------
+(* packet layout *)
+HasRI(f) == (f \div 2) % 2 = 1
+HasCI(f) == (f \div 4) % 2 = 1
+HasDL(f) == (f \div 8) % 2 = 1
+B(c) == IF c THEN 1 ELSE 0
+\* room for user data and dummy bytes: bytes 4..39 minus address nibbles and the RI, CI, DL bytes
+Cap(f, s) == 36 - s - B(HasRI(f)) - B(HasCI(f)) - B(HasDL(f))
+
+Pow16(j) == CASE j = 0 -> 1 [] j = 1 -> 16 [] j = 2 -> 256 [] j = 3 -> 4096 [] j = 4 -> 65536 [] j = 5 -> 1048576 [] j = 6 -> 16777216
+Nib(a, j) == (a \div Pow16(j)) % 16
+Fits(a, s) == a < Pow16(s)
+
+-----------------------------------------------------------------------------
+(* user data and dummy bytes (pure operators) *)
+DUMMY == 300             \* wire element "dummy byte" (transmitted as 0xAA)
+DummyValue == 170
+RunVal(b) == b = 0 \/ b = 255
+Ord(i) == 1 + ((37 * i) % 254)          \* ordinary user byte at position i: 1..254, neighbours differ
+Rep(x, n) == [i \in 1..n |-> x]
+
+\* The sender puts the segments on the wire.  A segment of n equal bytes 0x00 / 0xFF is a maximal run (its neighbours have
+\* another value): behind every 8th byte of it comes a dummy byte (which ends the run), then the run goes on.
+Min(a, b) == IF a < b THEN a ELSE b
+RECURSIVE WireOf(_, _)
+WireOf(pat, pos) ==
+  IF pat = <<>> THEN <<>>
+  ELSE LET v == Head(pat)[1]
+           n == Head(pat)[2]
+       IN (IF v < 0 THEN [i \in 1..n |-> Ord(pos + i)] ELSE [i \in 1..(n + (n \div 8)) |-> IF i % 9 = 0 THEN DUMMY ELSE v])
+          \o WireOf(Tail(pat), pos + n)
+WellFormed(pat) == \A i \in 1..(Len(pat) - 1) : pat[i][1] < 0 \/ pat[i][1] # pat[i + 1][1]
+
+\* pay = [pat, trail]: with a DL byte the pattern is the user data (cut to the room); without it all the room is user data
+\* (ordinary bytes follow the pattern).  A dummy byte that would be the last byte (the last user byte is the 8th of a run)
+\* may be sent or not when there is a DL byte (trail); without DL the room must be filled, so it is sent.
+Payload(pay, f, s) ==
+  LET cap == Cap(f, s)
+      wf == WireOf(IF HasDL(f) THEN pay.pat ELSE pay.pat \o <<<<-1, cap>>>>, 0)
+      w0 == SubSeq(wf, 1, Min(cap, Len(wf)))
+      td == w0 # <<>> /\ w0[Len(w0)] = DUMMY
+      w == IF td /\ HasDL(f) /\ ~pay.trail THEN SubSeq(w0, 1, Len(w0) - 1) ELSE w0
+  IN [user |-> SelectSeq(w, LAMBDA x : x # DUMMY), wire |-> w, trailApplies |-> td /\ HasDL(f)]
+
+\* The wire byte in front of the user data: DL (= number of wire bytes, 1..35 when there are data), else CI, else RI (0),
+\* else a Hamming coded byte (never 0x00 / 0xFF).  EN 300 708 is not available here: whether an RI / CI byte counts as part
+\* of a run of user bytes that it precedes is left open, such packets are not sent.
+Ambiguous(pay, f, ci) ==
+  /\ pay.pat # <<>> /\ pay.pat[1][1] >= 0 /\ pay.pat[1][2] > 0 /\ ~HasDL(f)
+  /\ pay.pat[1][1] = (IF HasCI(f) THEN ci ELSE IF HasRI(f) THEN 0 ELSE -1)
+
+\* receiver side of 6.5.7.1 on the received bytes: the byte after 8 equal bytes 0x00 / 0xFF is dropped
+Concrete(w) == [i \in 1..Len(w) |-> IF w[i] = DUMMY THEN DummyValue ELSE w[i]]
+RECURSIVE Destuff(_, _, _)
+Destuff(w, last, cnt) ==
+  IF w = <<>> THEN <<>>
+  ELSE LET b == Head(w) IN
+       IF cnt = 8 THEN Destuff(Tail(w), -1, 0)
+       ELSE <<b>> \o Destuff(Tail(w), b, IF RunVal(b) THEN (IF b = last THEN cnt + 1 ELSE 1) ELSE 0)
+
+-----------------------------------------------------------------------------
+(* faults and packet alphabets *)
+NoFault == [u |-> "none", i |-> 0, k |-> "-"]
+Drop    == [u |-> "drop", i |-> 0, k |-> "-"]
+CrcFaults(f) == {[u |-> "crc", i |-> 0, k |-> z] : z \in {"data", "check"} \cup (IF HasCI(f) \/ HasDL(f) THEN {"head"} ELSE {})}
+HamUnits(s) == {[u |-> x, i |-> 0] : x \in {"chan", "desig", "ft", "ial"}} \cup {[u |-> "spa", i |-> j] : j \in 0..(s - 1)}
+UnitFaults(s, kinds) == {[u |-> h.u, i |-> h.i, k |-> k] : h \in HamUnits(s), k \in kinds}
+
+Dest(l) == [chan |-> l.chan, addr |-> l.addr]
+\* other services, chosen adversarially: addresses one step away in every nibble (the carry of a neighbour reaches the next
+\* nibble: 0x2F / 0x30), nibbles replaced by 0 and by 15, and the same address on neighbouring channels
+SetNib(a, j, v) == a - (Nib(a, j) * Pow16(j)) + (v * Pow16(j))
+NeighbourAddrs(a, s) ==
+  {b \in UNION {{a + Pow16(j), a - Pow16(j), SetNib(a, j, 0), SetNib(a, j, 15), SetNib(a, j, (Nib(a, j) + 8) % 16)} : j \in 0..(s - 1)} :
+     b >= 0 /\ b # a /\ Fits(b, s)}
+OtherDests(l, s) == {[chan |-> l.chan, addr |-> b] : b \in NeighbourAddrs(l.addr, s)}
+                    \cup {[chan |-> c, addr |-> l.addr] : c \in {(l.chan + 1) % 16, (l.chan + 8) % 16}}
+FitLens(l) == {s \in SpaLens : Fits(l.addr, s)}
+
+P0 == [pat |-> <<<<-1, 5>>>>, trail |-> FALSE]           \* five ordinary bytes
+Item(d, f, s, dep, pay, flt) == [dest |-> d, fmt |-> f, spalen |-> s, dep |-> dep, pay |-> pay, flt |-> flt]
+
+\* "cont": continuity and loss flagging - every format with drop / CRC damage / an unreadable unit, some packets with other
+\* address lengths, payload sizes and the DEPENDENT bit, packets of the neighbours (ContFull = TRUE: the full product)
+CONSTANT ContFull
+MinLen(l) == CHOOSE x \in FitLens(l) : \A y \in FitLens(l) : x <= y
+ContFaults == {NoFault, Drop, [u |-> "crc", i |-> 0, k |-> "data"], [u |-> "ial", i |-> 0, k |-> "err2"]}
+ContPays == {P0, [pat |-> <<>>, trail |-> FALSE], [pat |-> <<<<-1, 40>>>>, trail |-> FALSE]}
+ContItems(l) ==
+  (IF ContFull
+   THEN {Item(Dest(l), f, s, dep, pay, flt) : f \in Formats \cap {0, 4, 8, 12}, s \in FitLens(l), dep \in BOOLEAN, pay \in ContPays, flt \in ContFaults}
+   ELSE {Item(Dest(l), f, MinLen(l), FALSE, P0, flt) : f \in Formats \cap {0, 4, 8, 12}, flt \in ContFaults}
+        \cup {Item(Dest(l), 12, s, TRUE, pay, NoFault) : s \in FitLens(l), pay \in ContPays}
+        \cup {Item(Dest(l), 0, 6, TRUE, P0, NoFault)})
+  \cup UNION {{Item(d, 12, s, FALSE, P0, NoFault) : d \in OtherDests(l, s)} : s \in {MinLen(l)} \ {0}}
+\* "unit": every Hamming protected unit of packets of the selected service and of its neighbours hit once and twice,
+\* CRC damage in every zone; sent between two intact packets
+UnitItems(l) ==
+  UNION {{Item(Dest(l), f, s, FALSE, P0, flt) : flt \in UnitFaults(s, {"err1", "err2"}) \cup CrcFaults(f)} : f \in Formats, s \in FitLens(l)}
+  \cup {Item(Dest(l), 13, s, FALSE, P0, NoFault) : s \in FitLens(l)}                        \* format B on our address
+  \cup {Item(Dest(l), 12, 7, FALSE, P0, NoFault)}                                           \* reserved address length
+  \cup UNION {{Item(d, f, s, FALSE, P0, flt) : f \in Formats \cap {4, 8}, d \in OtherDests(l, s),
+                    flt \in {NoFault} \cup UnitFaults(s, {"err1", "err2"})} : s \in (FitLens(l) \cap ForeignLens) \ {0}}
+PlainItems(l) == {Item(Dest(l), f, MinLen(l), FALSE, P0, NoFault) : f \in Formats \cap {4, 8}}
+\* "pay": every payload pattern in every format and address length (room 27..36), single packets
+PayItems(l) ==
+  {Item(Dest(l), f, s, FALSE, [pat |-> p, trail |-> t], NoFault) : f \in Formats, s \in FitLens(l), p \in Pays, t \in BOOLEAN}
+
+ModeLen(m) == CASE m = "cont" -> MaxPk [] m = "unit" -> 3 [] m = "pay" -> 1
+\* the last packet of a "cont" behaviour shows the flags: it is intact (unless ContFull)
+Stage(m, k, l) == CASE m = "cont" -> (IF k = MaxPk /\ ~ContFull THEN {it \in ContItems(l) : it.flt = NoFault /\ it.dest = Dest(l)} ELSE ContItems(l))
+                    [] m = "unit" -> (IF k = 2 THEN UnitItems(l) ELSE IF k = 1 THEN {Item(Dest(l), 4, MinLen(l), FALSE, P0, NoFault)} ELSE PlainItems(l))
+                    [] m = "pay"  -> PayItems(l)
+
+-----------------------------------------------------------------------------
+(* reference receiver: what it can read of an arriving packet *)
+RECURSIVE AddrVal(_, _)
+AddrVal(nib, j) == IF j \notin DOMAIN nib THEN 0 ELSE nib[j] * Pow16(j) + AddrVal(nib, j + 1)
+
+Rx(l, it) ==
+  LET f == it.flt
+      rd(unit, i, v) == IF f.u = unit /\ f.i = i /\ f.k = "err2" THEN -1 ELSE v      \* err1 is corrected
+      chan  == rd("chan", 0, it.dest.chan)
+      desig == rd("desig", 0, 15)
+      ft    == rd("ft", 0, it.fmt)
+      ial   == rd("ial", 0, it.spalen + (IF it.dep THEN 8 ELSE 0))
+      nib   == [j \in 0..(it.spalen - 1) |-> rd("spa", j, Nib(it.dest.addr, j))]
+  IN IF chan < 0 \/ desig < 0 THEN "ignore"
+     ELSE IF desig # 15 \/ chan # l.chan THEN "ignore"
+     ELSE IF ft < 0 \/ ft % 2 = 1 THEN "ignore"
+     ELSE IF ial < 0 \/ ial % 8 = 7 THEN "ignore"
+     ELSE IF \E j \in DOMAIN nib : nib[j] < 0 THEN "ignore"
+     ELSE IF AddrVal(nib, 0) # l.addr THEN "ignore"
+     ELSE IF f.u = "crc" THEN "bad" ELSE "take"
+
+\* a packet of the selected service (it advances the service's continuity counter)
+Own(l, it) == it.dest = Dest(l) /\ it.fmt % 2 = 0 /\ it.spalen # 7
+
+\* the payload behaviours need one listener only (the one whose address fits the most address lengths)
+Init == /\ mode \in Modes
+        /\ lst \in (IF mode = "pay" THEN {CHOOSE l \in Listen : \A m \in Listen : l.addr <= m.addr} ELSE Listen)
+        /\ sci \in (CASE mode = "cont" -> StartCi [] mode = "unit" -> {254} [] mode = "pay" -> PayCi) /\ rci = -1 /\ lost = FALSE /\ out = <<>> /\ gap = NoGap /\ seen = FALSE
         /\ npk = 0 /\ lastAct = [a |-> "init"]
 
+\* what the receiver delivers for a packet it takes: the user data the sender put into it
+Delivered(it) == Payload(it.pay, it.fmt, it.spalen).user
 
-\* room for user data: bytes 4..39 minus address nibbles, explicit CI and DL bytes; without a DL byte
-\* the whole room is user data
-Cap(fmt, spalen) == 36 - spalen - (IF fmt \in {"ci", "ci+dl"} THEN 1 ELSE 0) - (IF fmt \in {"ci+dl", "impl+dl"} THEN 1 ELSE 0)
-Payload(n, fmt, spalen) == IF fmt \in {"ci+dl", "impl+dl"} THEN (IF n < Cap(fmt, spalen) THEN n ELSE Cap(fmt, spalen)) ELSE Cap(fmt, spalen)
+Send(it) ==
+  LET own == Own(lst, it)
+      ci == IF own THEN sci ELSE 77              \* other services have their own counters
+      r == IF it.flt.u = "drop" THEN "ignore" ELSE Rx(lst, it)
+  IN /\ ~Ambiguous(it.pay, it.fmt, ci)
+     /\ (~it.pay.trail \/ Payload(it.pay, it.fmt, it.spalen).trailApplies)
+     /\ npk' = npk + 1
+     /\ lastAct' = [a |-> "Send", it |-> it, own |-> own, ci |-> ci]
+     /\ sci' = IF own THEN Inc(sci) ELSE sci
+     /\ CASE r = "take" ->
+               LET l == lost \/ (rci # -1 /\ rci # ci) IN
+               /\ out' = <<[lost |-> l, dep |-> it.dep]>>          \* with the bytes Delivered(it)
+               /\ rci' = Inc(ci) /\ lost' = FALSE /\ gap' = NoGap /\ seen' = TRUE
+          [] r = "bad" -> /\ out' = <<>> /\ gap' = [gap EXCEPT !.crc = TRUE] /\ rci' = -1 /\ lost' = TRUE /\ seen' = TRUE
+          [] r = "ignore" -> /\ out' = <<>> /\ gap' = (IF own THEN Miss(1) ELSE gap) /\ UNCHANGED <<rci, lost, seen>>
+     /\ UNCHANGED <<lst, mode>>
 
-\* a packet of the selected address; how = what the channel does to it
-Send(how, n, fmt, spalen, dep) ==
-  /\ npk' = npk + 1
-  /\ lastAct' = [a |-> "Send", how |-> how, n |-> n, fmt |-> fmt, spalen |-> spalen, dep |-> dep, ci |-> sci]
-  /\ sci' = Inc(sci)
-  /\ CASE how = "ok" ->
-            LET l == lost \/ (rci # -1 /\ rci # sci) IN
-            /\ out' = <<[n |-> Payload(n, fmt, spalen), lost |-> l, dep |-> dep]>>
-            /\ rci' = Inc(sci) /\ lost' = FALSE /\ gap' = NoGap /\ seen' = TRUE
-       [] how = "drop" -> /\ out' = <<>> /\ gap' = Miss(1) /\ UNCHANGED <<rci, lost, seen>>
-       [] how = "crc"  -> /\ out' = <<>> /\ gap' = [gap EXCEPT !.crc = TRUE] /\ rci' = -1 /\ lost' = TRUE /\ seen' = TRUE
-       [] how = "ham"  -> /\ out' = <<>> /\ gap' = Miss(1) /\ UNCHANGED <<rci, lost, seen>>
-
-\* a fade: k consecutive packets of the selected address never arrive.  The continuity indicator counts modulo 256,
+\* a fade: k consecutive packets of the selected service never arrive.  The continuity indicator counts modulo 256,
 \* so any run shorter than 256 is detectable and must be flagged (k = 16, 32 ... leave the low nibble unchanged).
 Burst(k) ==
   /\ npk' = npk + 1 /\ lastAct' = [a |-> "Burst", k |-> k, ci |-> sci]
   /\ sci' = (sci + k) % 256
-  /\ out' = <<>> /\ gap' = Miss(k) /\ UNCHANGED <<rci, lost, seen>>
+  /\ out' = <<>> /\ gap' = Miss(k) /\ UNCHANGED <<rci, lost, seen, lst, mode>>
 
-\* traffic that is not for us: other address, other channel, ordinary Teletext packet
+\* an ordinary Teletext packet
 Other(kind) ==
   /\ npk' = npk + 1 /\ lastAct' = [a |-> "Other", kind |-> kind]
-  /\ out' = <<>> /\ UNCHANGED <<sci, rci, lost, gap, seen>>
+  /\ out' = <<>> /\ UNCHANGED <<sci, rci, lost, gap, seen, lst, mode>>
 
-Next == \/ \E how \in {"ok", "drop", "crc", "ham"}, n \in Lens, f \in Formats, s \in SpaLens, d \in BOOLEAN : Send(how, n, f, s, d)
-        \/ \E k \in {"addr", "chan", "ttx"} : Other(k)
-        \/ \E k \in Bursts : Burst(k)
+Next == /\ npk < ModeLen(mode)
+        /\ \/ \E it \in Stage(mode, npk + 1, lst) : Send(it)
+           \/ mode = "cont" /\ Other("ttx")
+           \/ mode = "cont" /\ \E k \in Bursts : Burst(k)
 Spec == Init /\ [][Next]_vars
-Bounded == npk < MaxPk
 
+-----------------------------------------------------------------------------
+(* C15, IDL half *)
+Sent == lastAct'.a = "Send"
 \* loss is flagged exactly on the first delivery after it (once the receiver has synchronised)
 FlagOnlyAfterLoss == [][\A i \in 1..Len(out') : out'[i].lost => IsGap]_vars
 FlagAfterLoss     == [][\A i \in 1..Len(out') : (IsGap /\ seen) => out'[i].lost]_vars
+\* nothing from other addresses / channels / formats, whatever happens to their Hamming protected bytes
+NothingForeign    == [][(Sent /\ ~lastAct'.own) => out' = <<>>]_vars
+\* a packet failing its CRC or Hamming check is never delivered, a dropped one neither; a corrected one is
+DeliveredIff      == [][Sent => ((out' # <<>>) <=> (lastAct'.own /\ (lastAct'.it.flt.u = "none" \/ lastAct'.it.flt.k = "err1")))]_vars
+DepPassed         == [][(Sent /\ out' # <<>>) => out'[1].dep = lastAct'.it.dep]_vars
+\* exactly the sent bytes, for every payload, format and address length: the dummy bytes are where 6.5.7.1 puts them (behind
+\* 8 equal bytes 0x00 / 0xFF) and nowhere else, the receiver rule (drop the byte behind 8 equal bytes) gives back the user
+\* data, the room is used as the format says
+StuffOK(pay, f, s) ==
+  LET pl == Payload(pay, f, s)
+      w == pl.wire
+  IN /\ \A i \in 1..Len(w) : (w[i] = DUMMY) <=> (i > 8 /\ RunVal(w[i - 1]) /\ \A j \in (i - 8)..(i - 1) : w[j] = w[i - 1])
+     /\ Destuff(Concrete(w), -1, 0) = pl.user
+     /\ Len(w) <= Cap(f, s) /\ (~HasDL(f) => Len(w) = Cap(f, s))
+     /\ \A i \in 1..Len(pl.user) : pl.user[i] \in 0..255
+AllStuffOK == \A p \in Pays, t \in BOOLEAN, f \in Formats, s \in SpaLens : StuffOK([pat |-> p, trail |-> t], f, s)
 ASSUME \A k \in Bursts : k \in 1..255
+ASSUME \A p \in Pays : WellFormed(p)
+ASSUME \A f \in Formats : f \in 0..15 /\ f % 2 = 0
 TypeOK == sci \in 0..255 /\ rci \in -1..255
+
+-----------------------------------------------------------------------------
+(* constant sets for the configurations (tuples cannot be written in a .cfg) *)
+Run(pre, v, n) == (IF pre > 0 THEN <<<<-1, pre>>>> ELSE <<>>) \o <<<<v, n>>, <<-1, 1>>>>
+RunOnly(pre, v, n) == (IF pre > 0 THEN <<<<-1, pre>>>> ELSE <<>>) \o <<<<v, n>>>>
+SpecialPays == {<<>>, <<<<-1, 1>>>>, <<<<-1, 5>>>>, <<<<-1, 40>>>>,
+                <<<<0, 8>>, <<255, 8>>, <<-1, 1>>>>, <<<<-1, 1>>, <<0, 4>>, <<255, 4>>, <<0, 8>>, <<-1, 2>>>>,
+                <<<<-1, 1>>, <<0, 8>>, <<-1, 1>>, <<0, 8>>, <<-1, 1>>>>, <<<<-1, 1>>, <<0, 7>>, <<-1, 1>>, <<0, 1>>, <<-1, 1>>>>,
+                <<<<-1, 1>>, <<255, 1>>, <<0, 1>>, <<255, 1>>, <<0, 9>>, <<255, 9>>>>, <<<<-1, 2>>, <<0, 8>>, <<255, 1>>, <<-1, 1>>>>}
+PaysQ == SpecialPays \cup {Run(pre, v, n) : pre \in {0, 1, 4}, v \in {0, 255}, n \in {7, 8, 9, 15, 16, 17, 24, 30}}
+                     \cup {RunOnly(pre, v, n) : pre \in {1}, v \in {0, 255}, n \in {7, 8, 16, 24}}
+PaysT == SpecialPays \cup {Run(pre, v, n) : pre \in 0..4, v \in {0, 255}, n \in 6..34}
+                     \cup {RunOnly(pre, v, n) : pre \in 0..3, v \in {0, 255}, n \in 6..34}
+                     \cup {Run(pre, v, 8) \o Run(0, w, n) : pre \in {0, 1}, v \in {0, 255}, w \in {0, 255}, n \in {7, 8, 9, 16}}
+ListenQ == {[chan |-> 8, addr |-> 47], [chan |-> 5, addr |-> 3855]}                                \* 0x2F, 0xF0F
+ListenT == {[chan |-> 8, addr |-> 47], [chan |-> 5, addr |-> 3855], [chan |-> 0, addr |-> 0], [chan |-> 15, addr |-> 677],
+            [chan |-> 3, addr |-> 1048575]}                                                       \* 0x2A5, 0xFFFFF
+ListenM == {[chan |-> 8, addr |-> 47]}
 =============================================================================
